@@ -88,7 +88,12 @@ def swap_section(g, rng):
     from pico8.map.map import Map
     from pico8.sfx.sfx import Sfx
     from pico8.music.music import Music
-    name = rng.choice(('gfx', 'gff', 'map', 'sfx', 'music'))
+    name = rng.choice(('gfx', 'gfx_alone', 'gff', 'map', 'sfx', 'music'))
+    if name == 'gfx_alone':
+        # only the sprite sheet is assigned (what `build --gfx` does): the map keeps the Gfx object it was created with, the cart's
+        # sprite sheet is the object game.gfx names now
+        g.gfx = Gfx.from_bytes(bytes(g.gfx.to_bytes()), version=8)
+        return
     cur = bytes(getattr(g, name).to_bytes())
     if name == 'gfx':
         g.gfx = Gfx.from_bytes(cur, version=8)
@@ -356,7 +361,18 @@ def run_shard(spec, ctx):
             n = DATA_END - s + rng.choice((1, 1, 2, 17, 4096))
             if n <= 0:
                 n = rng.choice((1, 2, 9))
-            do_write(ctx, g, sh, s, carts.random_bytes(rng, n), 'reject')
+            # what lies beyond the cart data is refused whatever it is: random bytes, zeros (a padded memory dump), the cart's own bytes
+            shape = ('random', 'zeros', 'zero_overrun', 'own_bytes')[ctx.monitors.get('rejections_expected', 0) % 4]
+            data = carts.random_bytes(rng, n)
+            if shape == 'zeros':
+                data = bytes(n)
+            elif shape == 'zero_overrun':
+                keep = max(0, DATA_END - s)
+                data = data[:keep] + bytes(n - keep)
+            elif shape == 'own_bytes':
+                data = (bytes(sh.mem[s:DATA_END]) + bytes(n))[:n]
+            ctx.feature('rejected_data:' + shape)
+            do_write(ctx, g, sh, s, data, 'reject')
 
 
 def replay(case, ctx):
@@ -376,6 +392,8 @@ def gates(m, tier):
     for k in (1, 2, 3, 4, 5):
         if f.get('regions_spanned_%d' % k, 0) < 3:
             missed.append('no write spanning %d regions' % k)
+    if min(f.get('rejected_data:' + k, 0) for k in ('random', 'zeros', 'zero_overrun', 'own_bytes')) < 20:
+        missed.append('rejected writes by kind of data: %s' % {k: f.get('rejected_data:' + k, 0) for k in ('random', 'zeros', 'zero_overrun', 'own_bytes')})
     if f.get('cart_with_label', 0) < 500 or f.get('cart_without_label', 0) < 200:
         missed.append('writes to carts with a label %d, without %d' % (f.get('cart_with_label', 0), f.get('cart_without_label', 0)))
     if mon.get('saved_carts_compared', 0) < 20:
